@@ -31,9 +31,15 @@ def run(res, prop, tier, seed, work, replay=None, only=None):
     res.level = "exploration"
     views, nh = record(work, tier, seed)
     st, mism = vlib.validate_records(SPEC, "ViewRecords", "ViewRecords.cfg", work, views, chunk=300, data_name="views.ndjson", with_reason=True)
+    notes = collections.Counter()
     for i, (r, parts) in enumerate(mism):
         owner, _, what = parts[1].partition(":")
         sig = "views:%s" % what
+        if owner == "X":          # a view no listed property owns: a NOTE, once per kind
+            notes[what] += 1
+            if notes[what] == 1:
+                print("NOTE: view (no listed property): %s at history %d step %d node %s phase %s" % (what, r["hist"], r["step"], r["node"], r["phase"]))
+            continue
         rp = vlib.save_replay(work, "%s_h%d_s%d.json" % (owner, r["hist"], r["step"]),
                               {"engine": "views", "signature": sig, "seed": seed, "tier": tier, "phase": r["phase"], "errText": r.get("errText", []),
                                "record": {k: v for k, v in r.items() if k not in ("chain",)}}) if owner == prop and i < 40 else ""
@@ -49,8 +55,12 @@ def run(res, prop, tier, seed, work, replay=None, only=None):
         "evaluations": nq, "distinct_nontrivial": distinct,
         "rule": "one view record per observation point of a real node; a record holds every query answer (unspents of addresses, address count, checksum, "
                 "spent-by of every output ever created, address/confirmed/pending/all transaction lists, confirmed and predicted balances, last blocks, "
-                "block range, pages 1..N+2 of five query kinds in both orders); evaluations = individual query answers compared by TLC; "
+                "block range, pages 1..N+2 of five query kinds in both orders, plain and verbose; blocks by sequence list / since / verbose range / verbose last, head block, single-transaction status plain and with resolved inputs; and - as NOTE-level views no listed property owns - metadata counts, pool listings, outputs summary, rich list); evaluations = individual query answers compared by TLC; "
                 "distinct = distinct (head, pool, queried addresses, phase, node)",
+        "notes_no_listed_property": dict(notes),
+        "further_views": {"status_queries": sum(len(r["more"]["status"]) for r in recs), "verbose_blocks": sum(len(r["more"]["vRange"]) + len(r["more"]["vLast"]) for r in recs),
+                          "outputs_summaries_answered": sum(1 for r in recs if r["more"]["sumOK"]), "outputs_summaries_refused": sum(1 for r in recs if not r["more"]["sumOK"]),
+                          "rich_lists": sum(1 for r in recs if r["more"]["richOK"])},
         "view_records": len(recs), "records_by_phase": dict(phases), "pages_checked": npages,
         "traces_validated_against_impl": nh,
         "samples": [{"phase": s0["phase"], "node": s0["node"], "head": s0["st"]["headSeq"], "pool": [t["hash"][:8] for t in s0["pool"]],
